@@ -76,6 +76,7 @@ COST = {"navierstokes_4d_compressible_powerlaw": 40, "fans_sa_transient_free_she
         "axi_cns_transient": 3, "axisymmetric_navierstokes_compressible": 3, "euler_transient_3d": 3, "euler_3d": 2, "navierstokes_2d_compressible": 2}
 # C09 constants: see DESIGN sec. 5 (calibration); library flavour "plain" (-O0) and "opt" (-O2)
 K_D, K_L = 8, 8
+K_IRR = 256   # structured inputs (exact zeros / equal parameters / incremental and default vectors / points next to an axis): see DESIGN sec. 9.3
 
 
 def pde_exe(flavour="plain"):
@@ -91,7 +92,7 @@ def pde_shards(exe, sols, seed, cases, points, classes, precs=("d", "l"), dl=Fal
             while c0 < cases:
                 n = min(per, cases - c0)
                 args = ["--sols", sol, "--prec", p, "--seed", seed, "--case0", c0, "--cases", n, "--points", points, "--classes", classes,
-                        "--kd", K_D, "--kl", K_L]
+                        "--kd", K_D, "--kl", K_L, "--kirr", K_IRR]
                 if dl and p == "d":
                     args.append("--dl")
                 shards.append(Shard(exe, [str(a) for a in args], "%s%s/%s/%d" % (tag, sol, p, c0), timeout=3600))
@@ -99,7 +100,7 @@ def pde_shards(exe, sols, seed, cases, points, classes, precs=("d", "l"), dl=Fal
     # all solutions in scope on their own handles in one process (init pass, then select-back pass)
     for p in precs:
         args = ["--sols", ",".join(sols), "--multi", "--prec", p, "--seed", seed, "--case0", 1000000, "--cases", 3 if cases < 1000 else 12, "--points", 4, "--classes", classes,
-                "--kd", K_D, "--kl", K_L]
+                "--kd", K_D, "--kl", K_L, "--kirr", K_IRR]
         shards.append(Shard(exe, [str(a) for a in args], "%smulti-handle/%s" % (tag, p), timeout=3600))
     return shards
 
@@ -113,7 +114,17 @@ def pde_cov(agg, sols, what):
         else:
             worst[k]["n"] += st["n"]
     top = sorted(worst.items(), key=lambda kv: -kv[1]["max"])
+    worst_s = {}
+    for st in agg.stats.get("ratio_structured", []):
+        k = st["k"]
+        w = worst_s.setdefault(k, {"max": 0, "n": 0})
+        w["max"] = max(w["max"], round(st["max"], 4)); w["n"] += st["n"]
+    top_s = sorted(worst_s.items(), key=lambda kv: -kv[1]["max"])
     return {
+        "roundoff_bound": "generic inputs: |lib - ref| <= %g u e; structured inputs (special values, incremental/default/partial-default vectors, a coordinate within 0.05 of an axis): <= %g u e; stretched magnitudes: semantic tolerance only" % (K_D, K_IRR),
+        "max_error_ratio_structured_inputs(top 10)": {k: v for k, v in top_s[:10]},
+        "case_kinds": {k: agg.count(k) for k in ("fresh_parameter_vectors", "incremental_cases(1-3 parameters changed)", "default_parameter_cases(masa_init_param)", "partial_default_cases", "parameter_vectors_stretched",
+                                                 "parameter_vectors_with_special_values", "points_with_a_coordinate_near_zero", "skipped_overflow_in_stretched_case")},
         "evaluations": agg.count("comparisons") + agg.count("bad_index_calls") + agg.count("gradient_vs_fd_of_exact_checks")
         + agg.count("callback_argument_checks") + agg.count("mass_sum_invariant_checks") + agg.count("double_vs_longdouble_comparisons"),
         "distinct_nontrivial": agg.count("parameter_vectors_all_distinct_nonzero"),
